@@ -122,7 +122,7 @@ pub fn run(ctx: &Ctx) -> (CheckMeta, Acc) {
     let d1 = scripts_of_depth(1);
     let d2 = scripts_of_depth(2);
     let thorough = ctx.tier == Tier::Thorough;
-    let d3_samples: u64 = ctx.scaled(ctx.tier.pick(2_000, 200_000));
+    let d3_samples: u64 = ctx.scaled(ctx.tier.pick(100_000, 8_000_000));
     let liq = 1_000_000_000u128;
     let total = run_shards(ctx, 16, |sh, acc| {
         let mut idx: u64 = 0;
